@@ -4,6 +4,16 @@
 // comments only.
 package jobs
 
+import "reduction.dev/reduction/proto"
+
+// ghost identity functions of the node stubs (pure: a stub never changes its id)
+var ghostOperatorID func(op proto.Operator) string
+var ghostRunnerID func(sr proto.SourceRunner) string
+
+// what a NodeRegistry answers (used at interface level by Assembly.Healthy)
+var ghostRegHasOp func(r NodeRegistry, op proto.Operator) bool
+var ghostRegHasSR func(r NodeRegistry, sr proto.SourceRunner) bool
+
 func forall(lo, hi int, f func(int) bool) bool {
 	for i := lo; i < hi; i++ {
 		if !f(i) {
@@ -24,3 +34,142 @@ func forall(lo, hi int, f func(int) bool) bool {
 //@   order Deploy after AbortPendingCheckpoint
 //@   order Deploy after CurrentCheckpoint
 //@   order CurrentCheckpoint after AbortPendingCheckpoint
+
+// ---- job status (atomic value modelled as ghost field statusVal)
+//@ type jobStatus
+//@   ghostfield statusVal uint32
+
+//@ func jobStatus.Value
+//@   property C15
+//@   modifies nothing
+//@   ensures uint32(result) == s.statusVal
+
+//@ func jobStatus.Set
+//@   property C15
+//@   modifies s.statusVal
+//@   ensures s.statusVal == uint32(value)
+
+// ---- liveness
+// Purge forgets exactly the ids it returns; every other id keeps its heartbeat.
+//@ func LivenessTracker.Purge
+//@   property C15
+//@   modifies lt.m
+//@   ensures forall(func(k string) bool { return has(lt.m, k) ==> has(old(lt.m), k) && lt.m[k] == old(lt.m)[k] })
+//@   ensures forall(func(k string) bool { return has(old(lt.m), k) && !has(lt.m, k) ==> exists(0, len(result), func(j int) bool { return result[j] == k }) })
+//@   ensures forall(0, len(result), func(j int) bool { return has(old(lt.m), result[j]) && !has(lt.m, result[j]) })
+//@   loop 0:
+//@     invariant forall(func(k string) bool { return has(lt.m, k) ==> has(coll_, k) && lt.m[k] == coll_[k] })
+//@     invariant forall(func(k string) bool { return has(coll_, k) && !has(lt.m, k) ==> exists(0, len(missing), func(j int) bool { return missing[j] == k }) })
+//@     invariant forall(0, len(missing), func(j int) bool { return has(coll_, missing[j]) && !has(lt.m, missing[j]) })
+//@     invariant forall(func(k string) bool { return has(coll_, k) && !has(visited_, k) ==> has(lt.m, k) })
+
+//@ func LivenessTracker.Heartbeat
+//@   property C15
+//@   modifies lt.m
+//@   ensures has(lt.m, id) && forall(func(k string) bool { return k != id ==> has(lt.m, k) == has(old(lt.m), k) && lt.m[k] == old(lt.m)[k] })
+
+// ---- registry: two id-keyed maps of registered nodes
+//@ func ext:proto.Operator.ID
+//@   trusted
+//@   modifies nothing
+//@   ensures result == ghostOperatorID(self)
+//@ func ext:proto.SourceRunner.ID
+//@   trusted
+//@   modifies nothing
+//@   ensures result == ghostRunnerID(self)
+
+//@ define regInv(r) := r.runners != nil && r.operators != nil && r.liveness != nil && smInvOf(r.runners) && smInvOf(r.operators)
+//@ define smInvOf(sm) := len(sm.list) == len(sm.m) &&
+//@        forall(func(kk_ string) bool { return has(sm.m, kk_) ==> exists(0, len(sm.list), func(jj_ int) bool { return sm.list[jj_] == kk_ }) }) &&
+//@        forall(0, len(sm.list), func(ii_ int) bool { return has(sm.m, sm.list[ii_]) && forall(0, ii_, func(jj_ int) bool { return sm.list[jj_] != sm.list[ii_] }) })
+
+//@ func Registry.HasOperator
+//@   property C15
+//@   modifies nothing
+//@   ensures result == has(r.operators.m, ghostOperatorID(op))
+
+//@ func Registry.HasSourceRunner
+//@   property C15
+//@   modifies nothing
+//@   ensures result == has(r.runners.m, ghostRunnerID(sr))
+
+//@ func Registry.RegisterOperator
+//@   property C15
+//@   requires regInv(r)
+//@   modifies r.didChange, r.liveness.m, r.operators.m, r.operators.list, r.operators.isSorted
+//@   ensures regInv(r) && has(r.operators.m, ghostOperatorID(op)) && r.operators.m[ghostOperatorID(op)] == op
+//@   ensures forall(func(k string) bool { return k != ghostOperatorID(op) ==> has(r.operators.m, k) == has(old(r.operators.m), k) })
+//@   ensures !has(old(r.operators.m), ghostOperatorID(op)) ==> r.didChange
+
+//@ func Registry.DeregisterOperator
+//@   property C15
+//@   requires regInv(r) && op != nil
+//@   modifies r.didChange, r.operators.m, r.operators.list
+//@   ensures regInv(r) && !has(r.operators.m, op.Id)
+//@   ensures forall(func(k string) bool { return k != op.Id ==> has(r.operators.m, k) == has(old(r.operators.m), k) })
+//@   ensures has(old(r.operators.m), op.Id) ==> r.didChange
+
+// NewAssembly: exactly taskCount operators and taskCount source runners, all
+// currently registered, or an error when either kind is short.
+//@ func Registry.NewAssembly
+//@   property C15
+//@   requires regInv(r) && r.taskCount >= 0
+//@   modifies r.runners.list, r.operators.list
+//@   ensures (len(r.runners.m) < r.taskCount || len(r.operators.m) < r.taskCount) == (result1 != nil)
+//@   ensures result1 != nil ==> result0 == nil
+//@   ensures result1 == nil ==> result0 != nil && len(result0.operators) == r.taskCount && len(result0.sourceRunners) == r.taskCount
+//@   ensures result1 == nil ==> forall(0, r.taskCount, func(i int) bool { return has(r.operators.m, r.operators.list[i]) && result0.operators[i] == r.operators.m[r.operators.list[i]] })
+//@   ensures result1 == nil ==> forall(0, r.taskCount, func(i int) bool { return has(r.runners.m, r.runners.list[i]) && result0.sourceRunners[i] == r.runners.m[r.runners.list[i]] })
+//@   ensures result1 == nil ==> forall(0, r.taskCount, func(i int) bool { return forall(0, i, func(j int) bool { return r.operators.list[j] != r.operators.list[i] && r.runners.list[j] != r.runners.list[i] }) })
+
+// Purge drops every node whose heartbeat expired from both maps.
+//@ func Registry.Purge
+//@   property C15
+//@   requires regInv(r)
+//@   modifies r.didChange, r.liveness.m, r.runners.m, r.runners.list, r.operators.m, r.operators.list
+//@   ensures regInv(r)
+//@   ensures forall(0, len(result), func(j int) bool { return !has(r.runners.m, result[j]) && !has(r.operators.m, result[j]) && !has(r.liveness.m, result[j]) })
+//@   ensures forall(func(k string) bool { return has(r.operators.m, k) ==> has(old(r.operators.m), k) }) && forall(func(k string) bool { return has(r.runners.m, k) ==> has(old(r.runners.m), k) })
+//@   ensures len(result) > 0 ==> r.didChange
+//@   loop 0:
+//@     invariant regInv(r) && len(purged) == idx_
+//@     invariant forall(0, idx_, func(j int) bool { return purged[j] == coll_[j] && !has(r.runners.m, purged[j]) && !has(r.operators.m, purged[j]) })
+//@     invariant forall(func(k string) bool { return has(r.operators.m, k) ==> has(old(r.operators.m), k) }) && forall(func(k string) bool { return has(r.runners.m, k) ==> has(old(r.runners.m), k) })
+
+// Healthy: true exactly when every member of the assembly is still registered.
+//@ func ext:jobs.NodeRegistry.HasOperator
+//@   trusted
+//@   modifies nothing
+//@   ensures result == ghostRegHasOp(self, arg0)
+//@ func ext:jobs.NodeRegistry.HasSourceRunner
+//@   trusted
+//@   modifies nothing
+//@   ensures result == ghostRegHasSR(self, arg0)
+
+//@ func Assembly.Healthy
+//@   property C15
+//@   modifies nothing
+//@   ensures result0 == (forall(0, len(a.sourceRunners), func(i int) bool { return ghostRegHasSR(registry, a.sourceRunners[i]) }) &&
+//@                       forall(0, len(a.operators), func(i int) bool { return ghostRegHasOp(registry, a.operators[i]) }))
+//@   loop 0:
+//@     invariant forall(0, idx_, func(i int) bool { return ghostRegHasSR(registry, a.sourceRunners[i]) })
+//@   loop 1:
+//@     invariant forall(0, len(a.sourceRunners), func(i int) bool { return ghostRegHasSR(registry, a.sourceRunners[i]) })
+//@     invariant forall(0, idx_, func(i int) bool { return ghostRegHasOp(registry, a.operators[i]) })
+
+// evaluateClusterStatus: the job state machine. Status values: 0 Init, 1 Paused,
+// 2 AssemblyStarting, 3 Running. It leaves Running only for Paused and only when
+// the assembly is unhealthy; it enters AssemblyStarting only from Init/Paused with
+// a full assembly of registered nodes; it never sets Running itself.
+//@ func Job.evaluateClusterStatus
+//@   property C15
+//@   nosafety
+//@   requires j.registry != nil && j.status != nil && regInv(j.registry) && j.registry.taskCount >= 0
+//@   requires j.status.statusVal == 3 ==> j.assembly != nil
+//@   atcall Set@0: arg0 == StatusPaused && !ok
+//@   atcall Set@1: arg0 == StatusAssemblyStarting && err == nil && assembly != nil && len(assembly.operators) == j.registry.taskCount && len(assembly.sourceRunners) == j.registry.taskCount
+//@   ensures j.status.statusVal == 3 ==> old(j.status.statusVal) == 3
+//@   ensures old(j.status.statusVal) == 3 ==> j.status.statusVal == 3 || j.status.statusVal == 1
+//@   ensures old(j.status.statusVal) == 2 ==> j.status.statusVal == 2
+//@   ensures old(j.status.statusVal) <= 1 ==> j.status.statusVal == old(j.status.statusVal) || j.status.statusVal == 2
+//@   ensures (old(j.status.statusVal) <= 1 && j.status.statusVal == 2) ==> j.assembly != nil && len(j.assembly.operators) == j.registry.taskCount && len(j.assembly.sourceRunners) == j.registry.taskCount
